@@ -269,6 +269,31 @@ func C06(c *core.Ctx) {
 			})
 		}
 	}
+	// portfolio returns on deposit-only journals with many commodities (unchanged days must print the same
+	// 0.0% every time), and on a card debt repaid in instalments (the base cancels only up to rounding)
+	for k := 0; k < c.Pick(3, 10); k++ {
+		k := k
+		add("returns", fmt.Sprintf("returns, deposits only, %d", k), func(dir string) []string {
+			r := rand.New(rand.NewSource(c.Seed*104729 + int64(k)))
+			var b strings.Builder
+			b.WriteString("2020-01-01 open Assets:Depot\n2020-01-01 open Liabilities:Card\n2020-01-01 open Equity:Equity\n2020-01-01 open Expenses:X\n\n")
+			for n := 0; n < 10; n++ {
+				fmt.Fprintf(&b, "2020-01-01 price C%d 1.%d CHF\n", n, 1+n)
+			}
+			for d := 2; d < 20; d++ {
+				fmt.Fprintf(&b, "\n2020-01-%02d \"deposit\"\n", d)
+				for n := 0; n < 10; n++ {
+					if r.Intn(2) == 0 {
+						fmt.Fprintf(&b, "Equity:Equity Assets:Depot %d.%d C%d\n", 1+r.Intn(9), 1+r.Intn(9), n)
+					}
+				}
+				fmt.Fprintf(&b, "Equity:Equity Assets:Depot 0.1 C0\n")
+			}
+			b.WriteString("\n2020-01-21 \"card\"\nLiabilities:Card Expenses:X 417.05 CHF\n\n2020-01-22 \"repay\"\nEquity:Equity Liabilities:Card 82.72 CHF\n\n2020-01-23 \"repay\"\nEquity:Equity Liabilities:Card 334.33 CHF\n")
+			os.WriteFile(filepath.Join(dir, "r.knut"), []byte(b.String()), 0o644)
+			return append(append([]string{"portfolio", "returns", "-v", "CHF", "--days"}, [][]string{{}, {"--account", "Card"}, {"--account", "Depot"}}[k%3]...), "r.knut")
+		})
+	}
 	// infer with tied candidates
 	for k := 0; k < c.Pick(6, 40); k++ {
 		k := k
